@@ -263,7 +263,24 @@ class Model:
         for ci in mi.classes.values():
             helpers = {}
             frozen = set((known or {}).get(mi.name + ':' + ci.name, ()))
-            for name, h in ci.methods.items():
+            # new private methods of a base class in another module of the package (`RawAlgorithmsMixIn._imul` called as `self._imul(..)` from
+            # UTPM) are helpers of this class too, as long as their free names mean the same thing in both modules
+            inherited = {}
+            for bname in ci.bases:
+                for omi in self.modules.values():
+                    bci = omi.classes.get(bname.split('.')[-1])
+                    if bci is None or bci is ci or omi is mi:
+                        continue
+                    bfrozen = set((known or {}).get(omi.name + ':' + bci.name, ()))
+                    import builtins as _b
+                    for bn, bh in bci.methods.items():
+                        if bn in ci.methods or bn in bfrozen or not bn.startswith('_') or bn.startswith('__'):
+                            continue
+                        free = {n.id for n in ast.walk(bh.node) if isinstance(n, ast.Name) and isinstance(n.ctx, ast.Load)} - set(bh.params) \
+                            - {n.id for n in ast.walk(bh.node) if isinstance(n, ast.Name) and isinstance(n.ctx, ast.Store)}
+                        if all(hasattr(_b, f_) or (mi.imports.get(f_) is not None and mi.imports.get(f_) == omi.imports.get(f_)) for f_ in free):
+                            inherited[bn] = bh
+            for name, h in list(ci.methods.items()) + list(inherited.items()):
                 if not name.startswith('_') or name.startswith('__') or h.kind == 'property':
                     continue
                 if any(dotted_name(d_) not in ('classmethod', 'staticmethod') for d_ in h.node.decorator_list):
